@@ -458,9 +458,30 @@ def unload(P, R):
     ca = P.need_fn('module_close_all')
     rems = [s for s in ca.calls('set_remove')]
     guarded = []
+    def flag_guards(s):
+        """guards of s, with a flag local tested right where it was computed (`ok = !a && !b; if (ok) ...`) replaced by
+        the relations its value stands for"""
+        out = list(ca.guards(s.bid))
+        for e in ca.dominating_edges(s.bid):
+            r = rules.edge_rel(e)
+            if not (r and is_var(r[0]) and r[1] == '!=' and const_of(r[2]) == 0):
+                continue
+            defs = [t for t in ca.block_sites(e.src) if t.ev['k'] == 'store' and is_var(t.ev.get('lhs'), r[0]['name']) and t.ev.get('op') == '=']
+            if not defs:
+                continue
+            work = [defs[-1].ev.get('rhs')]
+            while work:
+                x = work.pop()
+                if isinstance(x, dict) and x.get('k') == 'bin' and x.get('op') == '&&':
+                    work += [x.get('l'), x.get('r')]
+                elif isinstance(x, dict):
+                    from ..model import rel as _rel
+                    rr = _rel(x, True)
+                    if rr:
+                        out.append(rr)
+        return out
     for s in rems:
-        gs = ca.guards(s.bid)
-        inloop_do = any(is_var(g[0]) is False for g in [])
+        gs = flag_guards(s)
         has_r = any(is_field(g[0], 'used') and on_path(g[0], 'rdepends') and g[1] == '==' and const_of(g[2]) == 0 for g in gs)
         has_b = any(is_field(g[0], 'is_backend') and g[1] == '==' and const_of(g[2]) == 0 for g in gs)
         if has_r or has_b:
@@ -474,7 +495,9 @@ def unload(P, R):
             nextit = [t for t in ca.stores() if t.ev['k'] == 'store' and is_var(t.ev.get('lhs')) and is_var(t.ev.get('rhs')) and t.bid in ca.reach([s.bid]) and t.ev['lhs']['name'] != t.ev['rhs']['name']]
             tgt = nextit[0].bid if nextit else None
             pp = ca.path_avoiding(s, lambda t: t in prog, target=tgt) if tgt is not None else p
-            R.ob('C20.GRD.3', bool(prog) and pp is None, s, 'every removal flags progress, so the rounds continue until nothing more can be unloaded', key='unload-progress')
+            # (a round that exempts back-ends is only a first pass: whatever it leaves is unloaded, still in dependency
+            # order, by the round without the exemption - that one has to run to completion)
+            R.ob('C20.GRD.3', (bool(prog) and pp is None) or has_b, s, 'every removal %sflags progress, so the rounds continue until nothing more can be unloaded' % ('of the complete round ' if not has_b else ''), key='unload-progress', nontrivial=not has_b)
     R.ob('C20.GRD.3', len(guarded) >= 1, rems[0] if rems else ca, 'dependency-ordered rounds come first; the unconditional sweep only handles leftovers', key='unload-shape', nontrivial=False)
     # rounds precede the sweep
     sweep = [s for s in rems if s not in guarded]
@@ -484,7 +507,7 @@ def unload(P, R):
     # followed by one that does not, or what those modules depend on goes out in the sweep, in name order
     if guarded:
         def skips_backends(s):
-            return any(is_field(g[0], 'is_backend') and g[1] == '==' and const_of(g[2]) == 0 for g in ca.guards(s.bid))
+            return any(is_field(g[0], 'is_backend') and g[1] == '==' and const_of(g[2]) == 0 for g in flag_guards(s))
         full = [s for s in guarded if not skips_backends(s)]
         part = [s for s in guarded if skips_backends(s)]
         R.ob('C20.GRD.3', bool(full) and all(p.bid not in ca.reach([e.dst for e in ca.out[f.bid]]) or f.bid == p.bid for p in part for f in full[-1:]), (part or guarded)[0],
